@@ -29,6 +29,7 @@ type RunConfig struct {
 	MaxPaths      int
 	Seed          int64
 	Debug         bool
+	Deadline      time.Time
 }
 
 type PathSample struct {
@@ -116,6 +117,12 @@ func (e *explorer) take() (workItem, bool) {
 	defer e.mu.Unlock()
 	for {
 		if e.stopped {
+			return workItem{}, false
+		}
+		if !e.cfg.Deadline.IsZero() && time.Now().After(e.cfg.Deadline) {
+			e.stopped = true
+			e.res.Problems = append(e.res.Problems, "wall-clock budget exhausted: exploration incomplete")
+			e.cond.Broadcast()
 			return workItem{}, false
 		}
 		if n := len(e.stack); n > 0 {
